@@ -269,6 +269,8 @@ class VartypeView:
         self.add_linear(v, bias - self.get_linear(v))  # just add the delta
 
     def set_quadratic(self, u: Variable, v: Variable, bias: Bias):
+        if u == v:
+            raise ValueError(f"{u!r} cannot have an interaction with itself")
         self.add_variable(u)
         self.add_variable(v)
         # just add the delta
